@@ -414,11 +414,22 @@ Definition c07_only_verify (prev : obs) (e : event) (cur : obs) : bool :=
          end
     else true) (o_replicas cur).
 
+(** ** C19 (control half): a replica that enters the list as RW at a start request has a clone status that allows
+    it: none (not a clone) or completed; the scripted world is part of the case *)
+Definition clone_ok (c : cstat) : bool := match c with CErr => false | _ => true end.
+Definition c19_step (w0 : world) (prev : obs) (e : event) (cur : obs) : bool :=
+  match e with
+  | Start _ _ =>
+      forallb (fun p => if is_rw (snd p) && negb (mem (fst p) (addrs_of (o_replicas prev)))
+                        then clone_ok (f_clone (wget w0 (fst p))) else true) (o_replicas cur)
+  | _ => true
+  end.
+
 Record verdict := mkverdict {
   v_diff : option (nat * nat);
   v_c02 : option nat; v_c03 : option nat; v_c04 : option nat; v_c05 : option nat;
   v_c09 : option nat; v_c13 : option nat; v_c18 : option nat;     (* first step at which the oracle fails *)
-  v_c01 : option nat; v_c16 : option nat; v_c07 : option nat
+  v_c01 : option nat; v_c16 : option nat; v_c07 : option nat; v_c19 : option nat
 }.
 
 Definition obs0 (rf0 n : nat) (w0 : world) : obs := observe n (init rf0 w0) ROk noeff.
@@ -462,7 +473,8 @@ Definition check_case (x : xcase) : verdict :=
     (walk_q (fun q => lift (c18_step rf0 q) (fun prev a b cur => c18_step rf0 q prev (SetMode 0%nat WO) cur)) 0 o0 (c_events c) (c_obs c) (x_quiet x))
     (walk (lift (c01_step rf0) nopair) 0 o0 (c_events c) (c_obs c))
     (walk (lift (c16_step rf0) nopair) 0 o0 (c_events c) (c_obs c))
-    (walk (lift (fun prev e cur => c07_step rf0 prev e cur && c07_only_verify prev e cur) nopair) 0 o0 (c_events c) (c_obs c)).
+    (walk (lift (fun prev e cur => c07_step rf0 prev e cur && c07_only_verify prev e cur) nopair) 0 o0 (c_events c) (c_obs c))
+    (walk (lift (c19_step (c_world c)) nopair) 0 o0 (c_events c) (c_obs c)).
 
 Definition on (o : option nat) : nat := match o with Some i => S i | None => 0%nat end.
 
@@ -473,7 +485,7 @@ Fixpoint bad_cases (i : nat) (cs : list xcase) : list (nat * (nat * nat) * list 
   | c :: t =>
       let v := check_case c in
       let fl := [on (v_c02 v); on (v_c03 v); on (v_c04 v); on (v_c05 v); on (v_c09 v); on (v_c13 v); on (v_c18 v);
-                 on (v_c01 v); on (v_c16 v); on (v_c07 v)] in
+                 on (v_c01 v); on (v_c16 v); on (v_c07 v); on (v_c19 v)] in
       let d := match v_diff v with Some d => d | None => (0, 0)%nat end in
       if Nat.eqb (fold_left Nat.add fl 0%nat) 0%nat && match v_diff v with None => true | _ => false end
       then bad_cases (S i) t
